@@ -1,6 +1,7 @@
 pub mod c01;
 pub mod c05;
 pub mod c05e;
+pub mod c06;
 pub mod c09;
 pub mod c09e;
 pub mod c10;
@@ -11,6 +12,7 @@ pub mod c14;
 pub mod c14e;
 pub mod c15;
 pub mod c16;
+pub mod c17;
 pub mod c19;
 pub mod c20;
 pub mod c20e;
@@ -29,6 +31,7 @@ pub fn dispatch(prop: &str, ctx: &Ctx, rep: &mut Report) -> bool {
     match prop {
         "C01" => c01::run(ctx, rep),
         "C05" => c05::run(ctx, rep),
+        "C06" => c06::run(ctx, rep),
         "C09" => c09::run(ctx, rep),
         "C10" => c10::run(ctx, rep),
         "C12" => c12::run(ctx, rep),
@@ -36,6 +39,7 @@ pub fn dispatch(prop: &str, ctx: &Ctx, rep: &mut Report) -> bool {
         "C14" => c14::run(ctx, rep),
         "C15" => c15::run(ctx, rep),
         "C16" => c16::run(ctx, rep),
+        "C17" => c17::run(ctx, rep),
         "C19" => c19::run(ctx, rep),
         "C20" => c20::run(ctx, rep),
         _ => return false,
